@@ -58,6 +58,25 @@ def main():
         good = clause in got
         print(f'  corrupt-a-field: {name}: rejected with {got} -> {"ok" if good else "MISSING " + clause}')
         ok &= good
+    # 1b. trace specifications bound to call traces: a multiplier's own call trace with one step removed, and an
+    # arithmetic netlist with one operand order swapped, must be reported as drift
+    from .drivers import c08, c09
+    mc = c08.record({'fn': 'mul', 'n': 3, 'm': 4, 'mode': 'DADDA', 'big': False, 'gen': True, 'host': None})
+    dc = c09.record({'fn': 'divmod', 'n': 3, 'big': False, 'gen': True, 'host': None})
+    mc2, dc2 = copy.deepcopy(mc), copy.deepcopy(dc)
+    pops = [j for j, ev in enumerate(mc2['ledger']['ev']) if ev['e'] == 'pop']
+    mc2['ledger']['ev'].pop(pops[len(pops) // 2])
+    new = [l for l in dc2['post']['ord'] if l not in dc2['pre']['g']]
+    gsw = next(dc2['post']['g'][l] for l in new if len(set(dc2['post']['g'][l]['o'])) == 2 and dc2['post']['g'][l]['t'] in ('GT', 'LT'))
+    gsw['o'] = list(reversed(gsw['o']))
+    allc = [mc, dc, mc2, dc2]
+    for n, c in enumerate(allc):
+        c['id'] = f'tr-{n}'
+    v, st = tlc.run_judge([strip_src(c) for c in allc], tag='selftest-tr', jobs=2)
+    drift = {cid: ds for cid, _, ds in st.get('drift', [])}
+    good = 'tr-0' not in drift and 'tr-1' not in drift and 'tr-2' in drift and 'tr-3' in drift
+    print(f'  call-trace binding: intact traces accepted, corrupted ones drift {sorted(drift.items())} -> {"ok" if good else "FAILED"}')
+    ok &= good
     # 2. spec mutation
     wd = tlc.workdir('selftest-api')
     cfg = os.path.join(wd, 'dev.cfg')
